@@ -43,6 +43,7 @@ func C12(c *Ctx, r *report.Run) error {
 	valid := buildUniverse(c)
 	rs, _ := univ.RuleSpecs(c.Thorough)
 	valid = append(valid, rs...)
+	valid = append(valid, univ.PairSpecs(c.Thorough)...)
 	for _, s := range valid {
 		if !hasTag(s, "valid") {
 			continue
